@@ -925,3 +925,161 @@ Proof.
   - apply Forall_app. split; [assumption|]. constructor; [reflexivity|constructor].
 Qed.
 End Written.
+
+(* ------------------------------------------------------------------ evaluation: the edge scope *)
+(* an edge binding wins over the file scope (and over the rule's own binding of that name) *)
+Theorem edge_shadows_file f esc file file' rb e n v :
+  str_eqb n s_in = false -> str_eqb n s_out = false -> lookup_val (e_binds e) n = Some v ->
+  edge_lookup (S f) esc file rb e n = Some v /\ edge_lookup (S f) esc file' rb e n = Some v.
+Proof. intros H1 H2 H3. cbn [edge_lookup]. now rewrite H1, H2, H3. Qed.
+
+Lemma in_existsb o outs : In o outs -> existsb (str_eqb o) outs = true.
+Proof. intros H. apply existsb_exists. exists o. split; [assumption|apply str_eqb_refl]. Qed.
+
+Lemma fold_add_var_rules kts : forall m, m_rules (fold_left add_var kts m) = m_rules m /\
+  m_edges (fold_left add_var kts m) = m_edges m /\ m_defaults (fold_left add_var kts m) = m_defaults m.
+Proof. induction kts as [|b kts IH]; intros m; [auto|]. cbn [fold_left]. destruct (IH (add_var m b)) as [A [B C]]. now rewrite A, B, C. Qed.
+
+Section Cmd.
+Variable uw : char -> bool.
+Notation no_nl_lines ls := (Forall (fun l => has_nl l = false) ls).
+
+(* the ninja_required_version line *)
+Lemma version_run wf lv m : w_version uw wf = Some lv ->
+  exists m', run_lines (mkPs m BNone) lv = Some (mkPs m' BNone) /\ m_rules m' = m_rules m /\ m_edges m' = m_edges m /\
+             m_defaults m' = m_defaults m /\ no_nl_lines lv.
+Proof.
+  unfold w_version. destruct (wf_min_version wf) as [v|].
+  - intros H. change (opt_all [w_variable uw false t_nrv [[NStr v]] NShell; Some []])
+      with (w_section uw [(t_nrv, [[NStr v]])] NShell) in H.
+    destruct (section_written uw NShell [(t_nrv, [[NStr v]])] lv eq_refl H) as [[E _]|[kt [kts [-> [R [_ Nl]]]]]]; [|discriminate|].
+    + constructor; [|constructor]. split; [|reflexivity]. constructor; [|constructor]. constructor; [|constructor]. constructor.
+    + rewrite (run_vars kt kts (mkPs m BNone) m eq_refl R). eexists. split; [reflexivity|].
+      destruct (fold_add_var_rules kts m) as [A [B C]]. auto.
+  - intros H. inversion H. exists m. repeat split; constructor.
+Qed.
+
+Lemma header_run wf m :
+  run_lines (mkPs m BNone) (w_header wf) = Some (mkPs m BNone) /\
+  (has_nl (wf_bfgfile wf) = false -> no_nl_lines (w_header wf)).
+Proof.
+  split.
+  - unfold w_header. cbn [run_lines]. rewrite !parse_line_comment by reflexivity. rewrite parse_line_blank. reflexivity.
+  - intros H. unfold w_header. repeat constructor. now rewrite has_nl_app, H.
+Qed.
+
+(* C02_manifest_cmd: the text NinjaFile.write produces for command_build (any outputs / inputs that are plain file
+   names, console or not, with or without description; phony = false) is parsed, and the command Ninja runs for
+   each output is split by sh into exactly the command words *)
+Theorem manifest_cmd bfg outs ins imp oo ws console desc text o :
+  has_nl bfg = false ->
+  all_paths_ok outs -> all_paths_ok ins -> all_paths_ok imp -> all_paths_ok oo -> In o outs ->
+  nf_write uw (w_command_build bfg outs ins imp oo ws console false desc) = Some text ->
+  exists m cmd, parse_manifest text = Some m /\ command_of m o = Some cmd /\ sh_words uw cmd = Some ws.
+Proof.
+  intros Hbfg Ho Hi Hm Hoo Hin H.
+  assert (Hne : outs <> []) by (destruct outs; [destruct Hin|discriminate]).
+  set (wf := w_command_build bfg outs ins imp oo ws console false desc) in *.
+  set (rname := if console then t_console_command else t_command).
+  unfold nf_write in H. destruct (nf_lines uw wf) as [lines|] eqn:L; [|discriminate]. cbn [option_map] in H.
+  inversion H; subst text. clear H.
+  unfold nf_lines in L. cbn [wf_path wf_command wf_flags wf_other wf_rules wf_builds wf w_command_build map app] in L.
+  apply opt_concat_cons_inv in L as [l0 [r0 [E0 [L ->]]]]. inversion E0; subst l0. clear E0.
+  apply opt_concat_cons_inv in L as [lv [r1 [Ev [L ->]]]].
+  apply opt_concat_cons_inv in L as [l2 [r2 [E2 [L ->]]]]. cbn in E2. inversion E2; subst l2. clear E2.
+  apply opt_concat_cons_inv in L as [l3 [r3 [E3 [L ->]]]]. cbn in E3. inversion E3; subst l3. clear E3.
+  apply opt_concat_cons_inv in L as [l4 [r4 [E4 [L ->]]]]. cbn in E4. inversion E4; subst l4. clear E4.
+  apply opt_concat_cons_inv in L as [l5 [r5 [E5 [L ->]]]]. cbn in E5. inversion E5; subst l5. clear E5.
+  apply opt_concat_cons_inv in L as [lr [r6 [Er [L ->]]]].
+  apply opt_concat_cons_inv in L as [lb [r7 [Eb [L ->]]]].
+  apply opt_concat_cons_inv in L as [ld [r8 [Ed [L ->]]]]. cbn in Ed. inversion Ed; subst ld. clear Ed.
+  cbn in L. inversion L; subst r8. clear L. cbn [app]. rewrite !app_nil_r.
+  (* the pieces *)
+  destruct (header_run wf empty_manifest) as [Rh Nh]. specialize (Nh Hbfg).
+  destruct (version_run wf lv empty_manifest Ev) as [m1 [Rv [Mr1 [Me1 [_ Nv]]]]].
+  assert (Rok : wrule_ok (mkWRule rname [[NLit (var_use t_cmd)]] None None None false
+                                  (if console then Some [[NStr t_console]] else None) false)).
+  { unfold wrule_ok. cbn [wr_name wr_command wr_depfile wr_deps wr_description wr_pool].
+    split; [unfold rname; now destruct console|].
+    split; [repeat constructor|].
+    split; [discriminate|]. split; [discriminate|]. split; [discriminate|].
+    intros v Hv. destruct console; inversion Hv. repeat constructor. }
+  destruct (rule_written uw _ lr Er Rok) as [ktr [ktsr [-> [Rr [Lr [Nr Vr]]]]]]. cbn [wr_name] in *.
+  set (bvars := (t_cmd, nwords_items ws) :: match desc with Some d => [(t_description, [[NStr d]])] | None => [] end) in *.
+  assert (Bok : wbuild_ok outs ins (imp ++ []) oo rname bvars).
+  { repeat split; try assumption; try (rewrite app_nil_r; assumption).
+    - unfold rname. now destruct console.
+    - unfold bvars. constructor.
+      + repeat split; try reflexivity; try discriminate. unfold nwords_items. clear. induction ws; repeat constructor. assumption.
+      + destruct desc; repeat constructor; try discriminate. }
+  destruct (build_written uw outs rname ins (imp ++ []) oo bvars lb Eb Bok) as [ktb [ktsb [-> [Rb [Lb Nb]]]]].
+  (* the bindings *)
+  unfold rule_bindings in Lr. cbn [wr_command wr_depfile wr_deps wr_description wr_generator wr_pool wr_restat optb flagb app] in Lr.
+  inversion Lr as [|b1 a1 bl1 ktr' [Ea1 Wa1] Lr']; subst. destruct a1 as [k1 x1]. cbn [fst snd] in *. subst k1.
+  cbn in Wa1. inversion Wa1; subst x1. clear Wa1.
+  inversion Rr as [|? [k1' ts1] ? ktsr' [Ek1 [_ [_ Hl1]]] Rr']; subst. cbn [fst snd] in *. subst k1'.
+  change (lex_value (var_use t_cmd)) with (Some [TV t_cmd]) in Hl1. inversion Hl1; subst ts1. clear Hl1.
+  unfold bvars in Lb. cbn [map build_binding fst snd] in Lb.
+  inversion Lb as [|b2 a2 bl2 ktb' [Ea2 Wa2] Lb']; subst. destruct a2 as [k2 x2]. cbn [fst snd] in *. subst k2.
+  change (str_eqb t_cmd t_description) with false in Wa2. cbv iota in Wa2.
+  inversion Rb as [|? [k2' ts2] ? ktsb' [Ek2 [_ [_ Hl2]]] Rb']; subst. cbn [fst snd] in *. subst k2'.
+  (* running the lines *)
+  pose (m2 := add_rule m1 (mkRule rname ((t_command, [TV t_cmd]) :: ktsr'))).
+  pose (ed := edge_of m2 outs rname ins (imp ++ []) oo ((t_cmd, ts2) :: ktsb')).
+  exists (add_edge m2 ed).
+  assert (Hk1 : rule_known m1 rname = false).
+  { unfold rule_known. rewrite Mr1. cbn. unfold rname. now destruct console. }
+  assert (P : parse_manifest (unlines (w_header wf ++ lv ++ ((t_kw_rule ++ rname) :: map bind_line ((t_command, var_use t_cmd) :: ktr') ++ [[]])
+                ++ (t_kw_build ++ build_text outs rname ins (imp ++ []) oo) :: map bind_line ((t_cmd, x2) :: ktb') ++ [[]]))
+              = Some (add_edge m2 ed)).
+  { rewrite parse_unlines by (repeat (apply Forall_app; split); assumption).
+    rewrite run_lines_app, Rh, run_lines_app, Rv, run_lines_app.
+    rewrite (run_rule_block (mkPs m1 BNone) m1 rname ((t_command, var_use t_cmd) :: ktr') ((t_command, [TV t_cmd]) :: ktsr') eq_refl); try assumption.
+    - cbv iota beta. fold m2. rewrite (run_edge_block (mkPs m2 BNone) m2 outs rname ins (imp ++ []) oo ((t_cmd, x2) :: ktb') ((t_cmd, ts2) :: ktsb') eq_refl); try assumption;
+        try (rewrite app_nil_r; assumption).
+      + reflexivity.
+      + unfold rname. now destruct console.
+      + unfold rule_known, m2, add_rule. cbn [m_rules]. rewrite existsb_app. cbn. rewrite str_eqb_refl. cbn.
+        now rewrite !orb_true_r.
+    - unfold rname. now destruct console.
+    - reflexivity. }
+  destruct (nwrite_each_words uw ws x2 Wa2) as [Ex2 Hnl2].
+  pose proof (value_roundtrip uw (alookup (rev []) (file_env (m_vars m2))) ws x2 Wa2) as V. rewrite Hl2 in V.
+  cbn [option_map] in V. inversion V as [V1]. clear V.
+  exists (join uw ws ++ []). split; [exact P|]. split; [|rewrite app_nil_r; apply join_words].
+  (* the command *)
+  set (mm := add_edge m2 ed).
+  assert (FE : find_edge mm o = Some ed).
+  { unfold find_edge, mm, add_edge. cbn [m_edges]. unfold m2 at 1, add_rule. cbn [m_edges]. rewrite Me1.
+    change (m_edges empty_manifest) with (@nil edge). cbn [app find]. change (e_outs ed) with outs. now rewrite (in_existsb o outs Hin). }
+  assert (FR : find_rule mm (e_rule ed) = Some (mkRule rname ((t_command, [TV t_cmd]) :: ktsr'))).
+  { change (e_rule ed) with rname. unfold find_rule.
+    assert (str_eqb rname s_phony = false) as -> by (unfold rname; now destruct console).
+    unfold mm, add_edge, m2, add_rule. cbn [m_rules]. rewrite Mr1. change (m_rules empty_manifest) with (@nil rule).
+    cbn [app find r_name]. now rewrite str_eqb_refl. }
+  unfold command_of, binding_of. rewrite FE, FR. unfold lookup_fuel. cbn [r_binds length].
+  cbn [edge_lookup]. change (str_eqb s_command s_in) with false. change (str_eqb s_command s_out) with false. cbv iota.
+  (* bindings of the edge: cmd (and description) *)
+  assert (Hb : e_binds ed = [(t_cmd, join uw ws)] \/ exists v2, e_binds ed = [(t_cmd, join uw ws); (t_description, v2)]).
+  { unfold ed, edge_of. cbn [e_binds eval_edge_bindings app rev]. change (m_vars m2) with (m_vars m1). cbn [rev] in V1.
+    change (m_vars m2) with (m_vars m1) in V1. rewrite V1.
+    destruct desc as [d|]; cbn [map] in Lb'.
+    - inversion Lb' as [|b3 a3 ? ? [Ea3 _] Lb'']; subst. inversion Lb''; subst.
+      inversion Rb' as [|? [k3 ts3] ? ? [Ek3 _] Rb'']; subst. inversion Rb''; subst. cbn [fst snd] in *. subst.
+      cbn [eval_edge_bindings app]. right. eexists. rewrite Ea3. reflexivity.
+    - inversion Lb'; subst. inversion Rb'; subst. cbn [eval_edge_bindings]. now left. }
+  assert (Lc : lookup_val (e_binds ed) s_command = None /\ lookup_val (e_binds ed) t_cmd = Some (join uw ws)).
+  { destruct Hb as [-> | [v2 ->]]; split; reflexivity. }
+  destruct Lc as [Lc1 Lc2].
+  rewrite Lc1.
+  (* bindings of the rule: command (and pool) *)
+  assert (Lt : lookup_toks ((t_command, [TV t_cmd]) :: ktsr') s_command = Some [TV t_cmd]).
+  { destruct console; cbn [optb] in Lr'.
+    - inversion Lr' as [|b3 a3 ? ? [Ea3 _] Lr'']; subst. inversion Lr''; subst.
+      inversion Rr' as [|? [k3 ts3] ? ? [Ek3 _] Rr'']; subst. inversion Rr''; subst. cbn [fst snd] in *.
+      unfold lookup_toks. cbn [rev app find fst]. rewrite <- Ek3, Ea3. reflexivity.
+    - inversion Lr'; subst. inversion Rr'; subst. reflexivity. }
+  rewrite Lt. cbn [edge_lookup]. change (str_eqb t_cmd s_in) with false. change (str_eqb t_cmd s_out) with false. cbv iota.
+  now rewrite Lc2.
+Qed.
+End Cmd.
